@@ -36,3 +36,31 @@ package util
 //@   loop 1 invariant [undecided-unchanged] forall i int :: 0 <= i && i < #iter && (forall k int :: 0 <= k && k < condParts(reqs[i]) ==> !decides(reqs[i], cvals, cpath, k)) && (forall i2 int :: 0 <= i2 && i2 < len(reqs) && i2 != i ==> reqs[i2] != reqs[i]) ==> reqs[i].Enabled == old(reqs[i].Enabled)
 //@   loop 2 invariant [none-so-far] forall k int :: 0 <= k && k < #iter ==> !decides(r, cvals, cpath, k)
 //@   loop 2 invariant [parts] len(#range) == condParts(r) && (forall k int :: 0 <= k && k < len(#range) ==> #range[k] == condPart(r, k))
+
+// ---- C14: schema gate (jsonschema.go, values.go)
+
+//@ ghost func subValues(values gomap[string]interface{}, sub *chart.Chart) gomap[string]interface{} = ite(has(values, chartName(sub)), values[chartName(sub)], nil).(map[string]interface{})
+//@ ghost func ownSchemaOK(chrt *chart.Chart, values gomap[string]interface{}) bool = len(chrt.Schema) == 0 && chrt.Schema == nil || schemaOK(values, chrt.Schema)
+
+//@ func ValidateAgainstSchema
+//@   props C14
+//@   requires chrt != nil
+//@   marks (result == nil) == treeOK(chrt, values)
+//@   ensures [rejects-own-schema] chrt.Schema != nil && !schemaOK(values, chrt.Schema) ==> result != nil
+//@   ensures [rejects-subchart] forall j int :: 0 <= j && j < len(chrt.dependencies) && !treeOK(chrt.dependencies[j], subValues(values, chrt.dependencies[j])) ==> result != nil
+//@   ensures [never-rejects-valid] (chrt.Schema == nil || schemaOK(values, chrt.Schema)) && (forall j int :: 0 <= j && j < len(chrt.dependencies) ==> treeOK(chrt.dependencies[j], subValues(values, chrt.dependencies[j]))) ==> result == nil
+//@   ensures [message] result != nil ==> len(errMsg(result)) > 0
+//@   ensures [builders-untouched] forall b ref :: !fresh(b) ==> sbLen[b] == old(sbLen)[b]
+//@   loop 1 invariant [acc] (sbLen[&sb] > 0) == ((chrt.Schema != nil && !schemaOK(values, chrt.Schema)) || (exists j int :: 0 <= j && j < #iter && !treeOK(chrt.dependencies[j], subValues(values, chrt.dependencies[j]))))
+//@   loop 1 invariant [len] sbLen[&sb] >= 0
+//@   loop 1 invariant [builders] forall b ref :: !fresh(b) ==> sbLen[b] == old(sbLen)[b]
+
+//@ func ToRenderValuesWithSchemaValidation
+//@   props C14
+//@   requires chrt != nil
+//@   modifies GschemaPassed, GschemaSkip, sbLen
+//@   marks err == nil ==> GschemaPassed == store(old(GschemaPassed), chrt, true) && GschemaSkip == store(old(GschemaSkip), chrt, skipSchemaValidation)
+//@   marks err != nil ==> GschemaPassed == old(GschemaPassed) && GschemaSkip == old(GschemaSkip)
+//@   ensures [validated] err == nil && !skipSchemaValidation ==> treeOK(chrt, coalV(chrt, chrtVals))
+//@   ensures [values-present] err == nil ==> has(result, "Values") && result["Values"].(Values) == coalV(chrt, chrtVals)
+//@   ensures [no-values-on-error] err != nil ==> !has(result, "Values")
